@@ -590,6 +590,9 @@ def compare_answers(oracle, ref, got, step, stats, first=None, final=False) -> V
     if snapshot.noise_only(ref, got):
         stats["numeric_noise"] += 1
         return None
+    if snapshot.projective_noise(ref, got):
+        stats["representative_noise"] = stats.get("representative_noise", 0) + 1
+        return None
     kind = "answer-changed"
     if ref[0] == "exc" or got[0] == "exc":
         kind = "outcome-changed"
